@@ -3,6 +3,7 @@
 package server
 
 import (
+	"html"
 	"fmt"
 	"strings"
 	"testing"
@@ -78,6 +79,7 @@ func checkC08(t *testing.T, job *Job, res *Result) {
 			scs = append(scs, c08OverlappingStops(second))
 		}
 		scs = append(scs, c08TwoStoppedServices())
+		scs = append(scs, c08HeldThenStopped(false), c08HeldThenStopped(true))
 		b := Bounds{D: 2, S: 0}
 		runS(t, job, res, "C08", withReversed(scs), b, 0)
 	}
@@ -228,6 +230,84 @@ func c08TwoStoppedServices() *Scenario {
 		}
 		if r3.Status != 404 || strings.Contains(string(r3.Body), "message of") {
 			vs = append(vs, Violation{"C08", "stop-message-of-another-service", fmt.Sprintf("request for an unknown host got %s with body %q", r3.Summary(), firstN(r3.Body, 200))})
+		}
+		return vs
+	}
+	return sc
+}
+
+// c08HeldThenStopped: requests held by a pause (ordinary ones, a POST, a health-check GET) when the service is stopped:
+// every held request is answered 503 with the operator's message the moment the stop is issued and none reaches a
+// target; the health-check GET is answered 200 by the proxy; requests after the stop get the same page.
+func c08HeldThenStopped(clientsFirst bool) *Scenario {
+	sc := &Scenario{Name: fmt.Sprintf("C08-S requests held by a pause, then stop; clientsFirst=%v", clientsFirst), Horizon: 30 * time.Second}
+	var held []*ReqObs
+	var after *ReqObs
+	var stop *CmdObs
+	const msg = "closed <till> 5 & later"
+	sc.Run = func(w *World) {
+		held, after, stop = nil, nil, nil
+		w.AddTarget("oa:80")
+		w.Deploy(deployArgs("s1", []string{"oa:80"}, []string{"a.example.com"}, nil))
+		w.Pause("s1", vD, vMaxPause)
+		var wg vsync.WaitGroup
+		specs := []ReqSpec{
+			{ID: "held-get", Host: "a.example.com", Path: "/"},
+			{ID: "held-post", Method: "POST", Host: "a.example.com", Path: "/form", Body: []byte("a=1")},
+		}
+		send := func() {
+			for _, sp := range specs {
+				sp := sp
+				wg.Add(1)
+				vsched.GoTagged("client", func() {
+					defer wg.Done()
+					r := w.Do(sp)
+					w.mu.Lock()
+					held = append(held, r)
+					w.mu.Unlock()
+				})
+			}
+		}
+		if !clientsFirst {
+			send()
+			time.Sleep(300 * time.Millisecond)
+		}
+		w.S.SetWindow(true)
+		if clientsFirst {
+			send()
+		}
+		wg.Add(1)
+		vsched.GoTagged("cmd", func() {
+			defer wg.Done()
+			stop = w.Stop("s1", vD, msg)
+		})
+		wg.Wait()
+		w.S.SetWindow(false)
+		after = w.Do(ReqSpec{ID: "after", Host: "a.example.com", Path: "/"})
+	}
+	sc.Check = func(w *World) []Violation {
+		var vs []Violation
+		if stop == nil || after == nil {
+			return vs
+		}
+		want := html.EscapeString(msg)
+		for _, r := range append(append([]*ReqObs{}, held...), after) {
+			b := string(r.Body)
+			if r.Status != 503 || !(strings.Contains(b, want) || strings.Contains(b, strings.ReplaceAll(want, "&#34;", "&quot;"))) {
+				sig := "held-request-not-answered-503-with-message on-stop"
+				if r.ID == "after" {
+					sig = "stopped-service-not-answering-503-with-message after-held-requests"
+				} else if r.StartSeq > stop.StartSeq {
+					sig = "request-arriving-during-stop-not-answered-503-with-message"
+				}
+				vs = append(vs, Violation{"C08", sig, fmt.Sprintf("request %s [%v..%v] got %s, body %q; stop issued at %v", r.ID, r.Start, r.End, r.Summary(), firstN(r.Body, 120), stop.Start)})
+			}
+		}
+		for _, e := range w.Net.Events() {
+			if e.Kind == "req" && e.Seq > stop.StartSeq {
+				vs = append(vs, Violation{"C08", "stopped-service-contacted-target after-held-requests", fmt.Sprintf("request %s reached %s after the stop was issued", e.ReqID, e.Target)})
+				break
+			}
 		}
 		return vs
 	}
